@@ -114,7 +114,7 @@ fn case(rng: &mut Rng, pools: &mut Pools, rep: &mut Report, case_no: u64) {
         let escaped = if monitored {
             let out = inst.run(m, Arc::new(Jitter { seed: rng.next(), level: 0 }));
             if !out.overflow && out.panic.is_none() {
-                let opts = EOpts { expect_tl: m.runs_tl(), caller_thread: out.caller, outer_mode: m.outer() , top_mult: 1, partial: false};
+                let opts = EOpts { expect_tl: m.runs_tl(), caller_thread: out.caller, outer_mode: m.outer() , top_mult: 1, partial: false, tl_mult: None};
                 if m.runs_units() {
                     let st = e_oracle(&plan, &out.events, &opts, &mut findings);
                     rep.metric("windows", st.windows as i64);
@@ -210,6 +210,113 @@ fn case(rng: &mut Rng, pools: &mut Pools, rep: &mut Report, case_no: u64) {
     let _ = inst.ctx.torn.load(SeqCst);
 }
 
+/// The async dispatcher under the same reference count model: every `dispatch()` request runs
+/// every ordinary system exactly once (however the requests are spaced), every `wait()` runs the
+/// thread-local systems exactly once.
+#[cfg(feature = "parallel")]
+fn case_async(rng: &mut Rng, pools: &mut Pools, rep: &mut Report, case_no: u64) {
+    use crate::res::full_world;
+    use crate::sys::instantiate;
+    let profile = *rng.pick(&[Profile::Tiny, Profile::Dense, Profile::Mixed, Profile::Batchy, Profile::SparseWide]);
+    let mut c = cfg_for(profile, rng);
+    c.n = (c.n.0.min(2), c.n.1.min(14));
+    c.tl = (0, 2);
+    let plan = gen_with(rng, &c);
+    let pool_size = *rng.pick(&POOL_SIZES);
+    let pool = pools.get(pool_size);
+    rep.evaluations += 1;
+    rep.metric("async_sequences", 1);
+    let n_uids = plan.n_uids();
+    let ctx = Ctx::new(n_uids.max(1), 16);
+    let b = match std::panic::catch_unwind(std::panic::AssertUnwindSafe(|| instantiate(&plan, &ctx, Some(&pool)))) {
+        Ok(b) => b,
+        Err(_) => {
+            rep.inconclusive += 1;
+            return;
+        }
+    };
+    let mut ad = b.build_async(full_world());
+    ctx.set_mode(Mode::Quiet);
+    let per = expected_counts(&plan, DMode::Par, n_uids);
+    let tls: Vec<u32> = plan.tls().iter().map(|t| t.uid).collect();
+    let (mut disp, mut waits) = (0u32, 0u32);
+    let mut calls: Vec<String> = Vec::new();
+    let len = rng.range(2, 14);
+    let mut seq_hash = 0xa5u64;
+    let mut failure: Option<(String, String)> = None;
+    let check = |what: &str, disp: u32, waits: u32, calls: &Vec<String>| -> Option<(String, String)> {
+        let got = ctx.run_counts();
+        for u in 1..n_uids {
+            let want = per[u] * disp + if tls.contains(&(u as u32)) { waits } else { 0 };
+            if got[u] != want {
+                return Some((
+                    if got[u] < want { "async_count_short".into() } else { "async_count_excess".into() },
+                    format!("after {} in the history {:?}: u{} has run {} times, {} dispatch requests / {} waits imply {}", what, calls, u, got[u], disp, waits, want),
+                ));
+            }
+        }
+        None
+    };
+    for _ in 0..len {
+        let op = rng.below(8);
+        seq_hash = mix(seq_hash, op as u64);
+        match op {
+            0..=3 => {
+                ad.dispatch();
+                disp += 1;
+                calls.push("dispatch".into());
+                // the next request lands at an arbitrary moment relative to the end of this one
+                match rng.below(4) {
+                    0 => {}
+                    1 => std::thread::yield_now(),
+                    _ => {
+                        let n = rng.below(20_000);
+                        for i in 0..n {
+                            std::hint::black_box(i);
+                        }
+                    }
+                }
+            }
+            4 => {
+                ad.wait();
+                waits += 1;
+                calls.push("wait".into());
+                failure = check("wait()", disp, waits, &calls);
+            }
+            5 => {
+                ad.wait_without_tl();
+                calls.push("wait_without_tl".into());
+                failure = check("wait_without_tl()", disp, waits, &calls);
+            }
+            6 => {
+                let _ = ad.world();
+                calls.push("world".into());
+                failure = check("world()", disp, waits, &calls);
+            }
+            _ => {
+                let r = ad.running();
+                calls.push(format!("running={}", r));
+            }
+        }
+        if failure.is_some() {
+            break;
+        }
+    }
+    if failure.is_none() {
+        ad.wait_without_tl();
+        failure = check("the final wait_without_tl()", disp, waits, &calls);
+    }
+    ctx.set_mode(Mode::Build);
+    let _ = ctx.take_violations();
+    if let Some((k, m)) = failure {
+        rep.violation(&k, &m, case_no, J::obj().set("plan", plan.to_json()).set("pool", pool_size).set("history", J::from(calls.clone())));
+        return;
+    }
+    if disp >= 2 {
+        rep.nontrivial(mix(plan.hash(), seq_hash));
+    }
+}
+
 pub fn run(args: &Args) -> i32 {
     let mut rep = Report::new(args);
     let mut pools = Pools::new();
@@ -223,6 +330,11 @@ pub fn run(args: &Args) -> i32 {
             break;
         }
         let mut rng = Rng::new(args.case_seed(c));
+        #[cfg(feature = "parallel")]
+        if c % 5 == 4 {
+            guard_case(&mut rep, c, |rep| case_async(&mut rng, &mut pools, rep, c));
+            continue;
+        }
         guard_case(&mut rep, c, |rep| case(&mut rng, &mut pools, rep, c));
     }
     rep.finish();
